@@ -131,13 +131,18 @@ func NewApp() *App {
 			if a.cur != nil {
 				b = a.cur.modSvcBehaviour
 			}
+			result, output := `{"code":200,"message":""}`, `{"header":{},"body":{"rate":"1.0"}}`
 			switch b {
 			case ModSvcMalformed:
-				return `{"code":200,"message":""}`, `{"nohdr":1}`
+				result, output = `{"code":200,"message":""}`, `{"nohdr":1}`
 			case ModSvcNoOutput:
-				return `{"code":500,"message":"boom"}`, ``
+				result, output = `{"code":500,"message":"boom"}`, ``
 			}
-			return `{"code":200,"message":""}`, `{"header":{},"body":{"rate":"1.0"}}`
+			if a.cur != nil {
+				// what the module's handler really answered, for the oracles
+				a.cur.modSvcLog = append(a.cur.modSvcLog, [2]string{result, output})
+			}
+			return result, output
 		},
 	}))
 	// a second module reserves another name: with two entries the keeper's by-name lookup has
@@ -174,6 +179,7 @@ type World struct {
 	params            types.Params
 	cbLog             []CallbackRec
 	modSvcBehaviour   ModSvcBehaviour
+	modSvcLog         [][2]string // (result, output) pairs the module-service double returned in this step
 	hasModSvc         bool
 	stateCbKill       bool // the verifmod double kills a context from inside its state callback
 	viaApp            bool // end-of-block through the application's module manager
@@ -312,6 +318,7 @@ type StepResult struct {
 	Callbacks []CallbackRec `json:"callbacks,omitempty"`
 	NewCtxID  string        `json:"new_ctx,omitempty"`
 	WallNs    int64         `json:"-"`
+	ModSvc    [][2]string   `json:"-"` // replies of the module-service double during the step
 	TxHash    string        `json:"-"` // hex, of the transaction the step ran in (msg / mod steps)
 	MsgIdx    int64         `json:"-"`
 }
@@ -392,6 +399,8 @@ func (w *World) DeliverMsg(msg sdk.Msg) (res StepResult) { return w.DeliverMsgTx
 // transaction (same tx hash, next message index).
 func (w *World) DeliverMsgTx(msg sdk.Msg, sameTx bool) (res StepResult) {
 	w.cbLog = nil
+	w.modSvcLog = nil
+	defer func() { res.ModSvc, w.modSvcLog = w.modSvcLog, nil }()
 	if err := msg.ValidateBasic(); err != nil {
 		res.Rejected = true
 		res.Err = err.Error()
